@@ -276,6 +276,47 @@ def _inline_guard_helpers(idx, fi, guard, depth=2):
     return nf.canon(out)
 
 
+def _expand_leaf_calls(idx, fi, paths, depth=3):
+    """A path that ends in `return g(args)` with g a function of the same module (e.g. within_tolerance delegating to
+    is_nearly_zero(x - y, tolerance, reference=x)) is replaced by g's own decision paths with the arguments substituted
+    (guards appended, raising paths dropped): composition of decision paths, on the AST only."""
+    out = []
+    for p in paths:
+        leaf = p.leaf.expr
+        g = None
+        if depth > 0 and isinstance(leaf, ast.Call) and isinstance(leaf.func, ast.Name) and leaf.func.id in fi.module.funcs \
+                and leaf.func.id != fi.name and not any(isinstance(a, ast.Starred) for a in leaf.args) \
+                and all(k.arg for k in leaf.keywords):
+            g = fi.module.funcs[leaf.func.id]
+        if g is None or g.node.args.vararg or g.node.args.kwarg or g.qualname in (PAN,):
+            out.append(p)
+            continue
+        a = g.node.args
+        names = [x.arg for x in a.args]
+        defaults = dict(zip(names[len(names) - len(a.defaults):], a.defaults))
+        env = {}
+        for i, n in enumerate(names):
+            if i < len(leaf.args):
+                env[n] = leaf.args[i]
+        for k in leaf.keywords:
+            env[k.arg] = k.value
+        for n in names:
+            if n not in env and n in defaults:
+                env[n] = defaults[n]
+        if set(names) - set(env):
+            out.append(p)
+            continue
+        sub = nf.decision_paths(g.node.body)
+        sub = _expand_leaf_calls(idx, g, [q for q in sub if q.leaf.kind == 'ret'], depth - 1) + [q for q in sub if q.leaf.kind != 'ret']
+        for q in sub:
+            if q.leaf.kind != 'ret':
+                continue            # a raising path of the callee does not return a verdict
+            guards = list(p.guards) + [nf.canon(nf.subst(x, env)) for x in q.guards]
+            leaf2 = nf.canon(nf.subst(q.leaf.expr, env))
+            out.append(nf.Path(guards, nf.Leaf('ret', leaf2, p.leaf.stmt, p.leaf.env), list(p.effects) + list(q.effects)))
+    return out
+
+
 def d1_within_tolerance(ctx, idx):
     r = ctx.rule('D1.TOL', 'within_tolerance decides norm(x - y) <= t (non-strict), t absolute or a percentage of '
                  'norm(x); +-inf only equals itself', floor=4)
@@ -294,6 +335,7 @@ def d1_within_tolerance(ctx, idx):
             elif p.leaf.kind == 'raise':
                 r.undecided(C, 'unreviewed raise inside within_tolerance: %s' % short(p.leaf.stmt), where)
         paths = [p for p in paths if p.leaf.kind == 'ret']
+        paths = _expand_leaf_calls(idx, fi, paths)
         for p in paths:
             p.guards = [_inline_guard_helpers(idx, fi, g) for g in p.guards]
         understood = not [q for q in idx.unreviewed if q not in _GUARD_HELPERS_SEEN]
@@ -309,6 +351,7 @@ def d1_within_tolerance(ctx, idx):
         try:
             # ---- infinite operands (numbers)
             bad = und = None
+            fallthrough = set()
             n_inf = 0
             for x in (INF, -INF, 1.0):
                 for y in (INF, -INF, 1.0, 2.0):
@@ -330,11 +373,20 @@ def d1_within_tolerance(ctx, idx):
                                    'infinity' % (cls, short(leaf, 60), res[1]), where)
                         elif isinstance(leaf, ast.Constant) and bad is None:
                             bad = ('for the operand class (%s) the constant %r is returned instead of x == y' % (cls, leaf.value), where)
-                        elif tolform and bad is None:
-                            bad = ('for the operand class (%s) the tolerance comparison `%s` is used: inf - inf is nan and nan <= t is '
-                                   'False, so an infinite answer no longer matches the same infinity' % (cls, short(leaf, 70)), where)
+                        elif tolform:
+                            fallthrough.add(cls)
+                            if bad is None:
+                                bad = ('FALLTHROUGH', where, short(leaf, 70))
                         elif und is None and not isinstance(res, tuple) and not isinstance(leaf, ast.Constant) and not tolform:
                             und = ('result for the operand class (%s) not recognised: %s' % (cls, short(leaf)), where)
+            if bad and bad[0] == 'FALLTHROUGH':
+                all_inf = n_inf // 3
+                bad = ('the operand class%s (%s) %s not take the "equal infinities only" branch but the tolerance comparison `%s`%s: there '
+                       'inf - inf is nan (nan <= t is False) and, with a percentage tolerance, t = p * |x| is itself infinite, so e.g. every '
+                       'finite answer matches an expected -inf (inf <= inf)'
+                       % ('es' if len(fallthrough) > 1 else '', '; '.join(sorted(fallthrough)), 'do' if len(fallthrough) > 1 else 'does',
+                          bad[2], '' if len(fallthrough) < all_inf else ' (no class with an infinite operand is handled separately any more)'),
+                       bad[1])
             if bad and understood:
                 r.violation(C + ': infinity clause', bad[0], bad[1], expected='if x or y is +-inf: return x == y')
             elif bad or und:
@@ -957,6 +1009,8 @@ def d3_consolidate(ctx, idx):
             r.undecided(C + ': failing verdict', 'returned value not recognised', where_t)
         if len(tail) != 1:
             raise AnalysisError('consolidate_results: expected one return for the agreeing case')
+        if _passing_record(r, idx, fi, C, tail[0], p_ans):
+            return
         prov = fl.Prov(fi.node, roots=[p_res, p_ans])
         pr = prov.of(tail[0].value)
         if pr == {p_ans}:
@@ -982,6 +1036,119 @@ def d3_consolidate(ctx, idx):
             r.violation(C + ': passing verdict', 'a comparer result is returned instead of the answer\'s credit/message', lib.loc(fi, tail[0]))
         else:
             r.undecided(C + ': passing verdict', 'returned value not recognised: %s' % short(tail[0]), lib.loc(fi, tail[0]))
+
+
+def _dict_literal_of(idx, fi, e):
+    """key -> value expr if e is a dict literal, dict(<such>), <such>.copy(), or a class / module constant bound to one."""
+    if isinstance(e, ast.Dict) and all(isinstance(k, ast.Constant) for k in e.keys):
+        return {k.value: v for k, v in zip(e.keys, e.values)}
+    if isinstance(e, ast.Call) and nf.callee_name(e) == 'dict' and len(e.args) == 1 and not e.keywords:
+        return _dict_literal_of(idx, fi, e.args[0])
+    if isinstance(e, ast.Call) and nf.callee_name(e) == 'dict' and not e.args and all(k.arg for k in e.keywords):
+        return {k.arg: k.value for k in e.keywords}
+    if isinstance(e, ast.Call) and isinstance(e.func, ast.Attribute) and e.func.attr == 'copy' and not e.args:
+        return _dict_literal_of(idx, fi, e.func.value)
+    if isinstance(e, ast.Attribute) and isinstance(e.value, ast.Name):
+        owner = None
+        if fi.cls is not None and e.value.id in ('self', 'cls'):
+            owner = fi.cls
+        else:
+            kind, obj = idx.resolve_name(fi.module, e.value.id)
+            owner = obj if kind == 'class' else None
+        if owner is not None:
+            k, v = idx.lookup_attr(owner, e.attr)
+            if v is not None:
+                return _dict_literal_of(idx, fi, v)
+    if isinstance(e, ast.Name) and len(fi.module.assigns.get(e.id, [])) == 1:
+        return _dict_literal_of(idx, fi, fi.module.assigns[e.id][0])
+    return None
+
+
+def _passing_record(r, idx, fi, C, ret, p_ans):
+    """Resolve the record returned for an agreeing response key by key, for the two classes of the answer (None / given),
+    through dict(...) of a class constant, dict comprehensions over a key list, `.update(k=v)` and `rec[k] = v`.
+    Returns False (nothing recorded) when the construction is not of this kind."""
+    if not isinstance(ret.value, ast.Name):
+        return False
+    rec = ret.value.id
+    paths = [p for p in nf.decision_paths(fi.node.body, keep_locals=(rec,)) if p.leaf.stmt is ret]
+    if not paths:
+        return False
+    KEYS = ('ok', 'grade_decimal', 'msg')
+    given = {'ok': object(), 'grade_decimal': object(), 'msg': object()}
+    records = {}
+    for kind, aval in (('none', None), ('given', given)):
+        try:
+            taken = [p for p in paths if all(mev.ev(g, {p_ans: aval}) for g in p.guards if fl.mentions(g, p_ans))]
+        except mev.Unsupported:
+            return False
+        if len(taken) != 1:
+            return False
+        cur = None
+        for e in taken[0].effects:
+            if isinstance(e, ast.Assign) and len(e.targets) == 1 and fl.name_of(e.targets[0]) == rec:
+                v = e.value
+                if isinstance(v, ast.DictComp) and len(v.generators) == 1 and isinstance(v.generators[0].target, ast.Name) \
+                        and isinstance(nf.const_value(v.generators[0].iter, None), (list, tuple)) and isinstance(v.value, ast.Subscript) \
+                        and fl.name_of(v.value.slice) == v.generators[0].target.id and fl.name_of(v.key) == v.generators[0].target.id:
+                    src = v.value.value
+                    hops = 0
+                    while isinstance(src, ast.IfExp) and hops < 3:
+                        try:
+                            src = src.body if mev.ev(src.test, {p_ans: aval}) else src.orelse
+                        except mev.Unsupported:
+                            return False
+                        hops += 1
+                    lit = _dict_literal_of(idx, fi, src)
+                    cur = {}
+                    for k in nf.const_value(v.generators[0].iter):
+                        cur[k] = lit.get(k) if lit is not None else ast.Subscript(value=src, slice=ast.Constant(value=k), ctx=ast.Load())
+                else:
+                    cur = _dict_literal_of(idx, fi, v)
+                    cur = dict(cur) if cur is not None else None
+            elif cur is not None and isinstance(e, ast.Assign) and len(e.targets) == 1 and isinstance(e.targets[0], ast.Subscript) \
+                    and fl.name_of(e.targets[0].value) == rec and isinstance(lib.subscript_key(e.targets[0]), str):
+                cur[lib.subscript_key(e.targets[0])] = e.value
+            elif cur is not None and isinstance(e, ast.Expr) and isinstance(e.value, ast.Call) and isinstance(e.value.func, ast.Attribute) \
+                    and e.value.func.attr == 'update' and fl.name_of(e.value.func.value) == rec:
+                c = e.value
+                if c.args:
+                    lit = _dict_literal_of(idx, fi, c.args[0])
+                    if lit is None:
+                        return False
+                    cur.update(lit)
+                cur.update({k.arg: k.value for k in c.keywords if k.arg})
+        if cur is None:
+            return False
+        records[kind] = cur
+    where = lib.loc(fi, ret)
+    problems = []
+    for k in KEYS:
+        g = records['given'].get(k)
+        if g is None:
+            problems.append("key %r is missing from the record" % k)
+        elif not (isinstance(g, ast.Subscript) and fl.name_of(g.value) == p_ans and lib.subscript_key(g) == k):
+            lit = nf.const_value(g, '<expr>')
+            problems.append("%r is `%s`, not the answer's own %s%s" % (
+                k, short(g, 40), k, {'ok': ": a match with a partial-credit answer (ok='partial', grade 0.5) is returned with ok=%r next to "
+                                            "its grade" % (lit,),
+                                     'grade_decimal': ': the credit of the matched answer is not what the response earns',
+                                     'msg': ": the answer's feedback message is lost"}[k]))
+    want_none = {'ok': True, 'grade_decimal': 1, 'msg': ''}
+    for k in KEYS:
+        n_ = records['none'].get(k)
+        v = nf.const_value(n_, '<expr>') if n_ is not None else '<missing>'
+        if not (v == want_none[k] and type(v) is type(want_none[k]) or (k == 'grade_decimal' and v in (1, 1.0) and not isinstance(v, bool))):
+            problems.append('without an answer (None) %r is %r instead of %r' % (k, v, want_none[k]))
+    extra = set(records['given']) - set(KEYS)
+    if problems:
+        r.violation(C + ': passing verdict', 'the record returned for an agreeing response: ' + '; '.join(problems), where,
+                    expected="{'ok': answer['ok'], 'grade_decimal': answer['grade_decimal'], 'msg': answer['msg']}")
+    elif extra:
+        r.undecided(C + ': passing verdict', 'extra keys %s in the returned record' % sorted(extra), where)
+    else:
+        r.ok(C + ': passing verdict', "key by key the answer's ok / grade_decimal / msg (True / 1 / '' without an answer)", where)
+    return True
 
 
 def _opaque(n):
@@ -1497,6 +1664,117 @@ def _failable_by_comparer_class(r, idx, fi, nm, ifexp, ccall, where):
     return True
 
 
+def _fresh_scaled_records(r, idx, fi, name, rn, ccall, kcall):
+    """Scaling done by building a NEW record per comparer result: `{'grade_decimal': r['grade_decimal'] * answer['grade_decimal'], ...}`
+    inside an iteration over the comparer results, collected into the list that consolidate_results receives."""
+    env = lib.local_env(fi.node)
+    hits = []
+    for d in [n for n in walk_own(fi.node) if isinstance(n, ast.Dict)]:
+        keys = lib.dict_literal_keys(d)
+        if 'grade_decimal' not in keys:
+            continue
+        loop = fl.enclosing_loop(d, fi.node)
+        comp = [a for a in ancestors(d) if isinstance(a, (ast.ListComp, ast.GeneratorExp))]
+        rv = None
+        if isinstance(loop, ast.For) and isinstance(loop.target, ast.Name) and fl.name_of(fl.unwrap_seq(loop.iter)[0]) == rn:
+            rv = loop.target.id
+        elif comp and len(comp[0].generators) == 1 and isinstance(comp[0].generators[0].target, ast.Name) \
+                and fl.name_of(fl.unwrap_seq(comp[0].generators[0].iter)[0]) == rn:
+            rv = comp[0].generators[0].target.id
+        if rv is None:
+            continue
+        hits.append((d, rv, loop, fl.expand(d.values[keys.index('grade_decimal')], env)))
+    if not hits:
+        return False
+    for d, rv, loop, val in hits:
+        where = lib.loc(fi, d)
+        res = nf.classify("%s['grade_decimal'] * answer['grade_decimal']" % rv, val)
+        if res == nf.MATCH:
+            extra = lib.loop_has_early_exit(loop) if loop is not None else []
+            conds = [a for a, br in fl.if_chain_containing(d, fi.node) if loop is not None and any(a is x for x in ast.walk(loop))]
+            if extra or conds:
+                r.violation(name + ': credit scaling', 'the scaled record is not built for every result (%s)'
+                            % short(extra[0] if extra else conds[0].test), where)
+            else:
+                r.ok(name + ': credit scaling', "a fresh record with grade_decimal = result grade * answer['grade_decimal'] per result", where)
+            a0 = lib.get_kw(kcall, 'results', 0)
+            flows = fl.Prov(fi.node, roots=[]).defs
+            reach = False
+            seen, todo = set(), [fl.name_of(a0)] if fl.name_of(a0) else []
+            while todo:
+                n = todo.pop()
+                if n in seen or n is None:
+                    continue
+                seen.add(n)
+                for v in flows.get(n, []):
+                    if any(x is d for x in ast.walk(v)):
+                        reach = True
+                    todo.extend(y.id for y in ast.walk(v) if isinstance(y, ast.Name))
+            r.check(reach and lib.dominated(fi, [ccall], [d]), name + ': credit scaling order',
+                    'the scaled records are what consolidate_results receives',
+                    'consolidate_results does not receive the scaled records', where)
+        elif isinstance(res, tuple):
+            r.violation(name + ': credit scaling', res[1], where,
+                        expected="%s['grade_decimal'] * answer['grade_decimal']" % rv, found=unparse(val))
+        else:
+            r.undecided(name + ': credit scaling', 'grade of the rebuilt record not recognised: %s' % short(val), where)
+    return True
+
+
+def _scaling_after_consolidation(r, idx, fi, name, ccall):
+    """Scaling moved into consolidate_results, applied to the ONE record it hands back.  That record is of two kinds: a
+    failing sample result (unscaled comparer grade) or the pruned answer (whose grade already IS the answer's credit)."""
+    cf = idx.func(MM + '.consolidate_results')
+    ps = [p for p in cf.params if p not in ('self', 'cls')]
+    if len(ps) != 3:
+        return False
+    p_res, p_ans, p_fail = ps
+    hits = []
+    for n in walk_own(cf.node):
+        val = tgt = None
+        if isinstance(n, ast.AugAssign) and lib.subscript_key(n.target) == 'grade_decimal' and isinstance(n.op, ast.Mult):
+            tgt, val = n.target, n.value
+        elif isinstance(n, ast.Assign) and len(n.targets) == 1 and lib.subscript_key(n.targets[0]) == 'grade_decimal' \
+                and isinstance(n.value, ast.BinOp) and isinstance(n.value.op, ast.Mult):
+            tgt = n.targets[0]
+            val = n.value.right if nf.equal(nf.canon(n.value.left), nf.canon(_as_load(tgt))) else n.value.left
+        if tgt is not None and nf.match("%s['grade_decimal']" % p_ans, val) is not None and isinstance(tgt.value, ast.Name):
+            hits.append((n, tgt.value.id))
+    if not hits:
+        return False
+    for n, x in hits:
+        where = lib.loc(cf, n)
+        defs = lib.assigned_value(cf.node, x)
+        kinds = set()
+        prov = fl.Prov(cf.node, roots=[p_res, p_ans])
+        for v in defs:
+            pr = prov.of(v)
+            if p_ans in pr:
+                kinds.add('pruned answer')
+            if p_res in pr:
+                kinds.add('sample result')
+        conj = fl.reach_condition(n, cf.node)
+        try:
+            admits = {v: all(mev.ev(c, {x: {'ok': v}}) for c in conj if fl.mentions(c, x)) for v in OK_VALUES}
+        except (mev.Unsupported, KeyError):
+            admits = None
+        if 'pruned answer' in kinds and (admits is None or admits.get('partial')):
+            r.violation(name + ': credit scaling', "the multiplication by answer['grade_decimal'] moved from raw_check (every comparer result, "
+                        "before consolidation) into consolidate_results, where it is applied to the verdict `%s` after the selection%s; that "
+                        "verdict is either a failing sample result or the pruned ANSWER, whose grade already is the answer's credit and whose "
+                        "ok is 'partial' for a partial-credit answer: the credit is applied twice (an answer worth 0.6 earns 0.36)"
+                        % (x, ' under `%s`' % ' and '.join(unparse(c) for c in conj) if conj else ''), where,
+                        expected="result['grade_decimal'] *= answer['grade_decimal'] for every comparer result, before consolidate_results")
+        elif kinds == {'sample result'} and admits is not None and admits.get('partial'):
+            r.ok(name + ': credit scaling', "consolidate_results multiplies the grade of the failing sample result it hands back by "
+                 "answer['grade_decimal'] (the other results are not returned)", where)
+            r.ok(name + ': credit scaling order', 'applied to the selected failing result before it is returned', where)
+        else:
+            r.undecided(name + ': credit scaling', 'scaling inside consolidate_results on `%s` (kinds %s) not understood' % (x, sorted(kinds)),
+                        where)
+    return True
+
+
 def d4_credit(ctx, idx):
     r = ctx.rule('D4.CREDIT', "every comparer grade is multiplied by the answer's credit before consolidation with "
                  "config['failable_evals']", floor=10)
@@ -1520,7 +1798,11 @@ def d4_credit(ctx, idx):
                 tgt = n.targets[0]
             if val is not None:
                 stores.append((n, tgt, val))
-        if not stores:
+        if not stores and _fresh_scaled_records(r, idx, fi, name, rn, ccall, kcall):
+            pass
+        elif not stores and _scaling_after_consolidation(r, idx, fi, name, ccall):
+            pass
+        elif not stores:
             others = [c for c in walk_own(fi.node) if isinstance(c, ast.Call) and c is not ccall and c is not kcall
                       and any(fl.mentions(a, rn) for a in fl.call_args(c))]
             if others:
@@ -1957,6 +2239,8 @@ MUTANTS = [
            "        if x == inf or y == inf or x == -inf or y == -inf:\n            return True", 'D1'),
     Mutant('inf-clause-abs', MF, "        if x == inf or y == inf or x == -inf or y == -inf:\n            return x == y",
            "        if x == inf or y == inf or x == -inf or y == -inf:\n            return x != y", 'D1'),
+    Mutant('seeded-infinity-membership-loses-minus-x', MF, "    if isinstance(x, Number):\n        if x == inf or y == inf or x == -inf or y == -inf:\n            return x == y\n",
+           "    if isinstance(x, Number) and inf in (x, y, -y):\n        return x == y\n", 'D1'),
     Mutant('percent-factor', MF, "    return float(percent_str.strip()[:-1]) * 0.01", "    return float(percent_str.strip()[:-1]) * 0.1", 'D1'),
     Mutant('percent-not-scaled', MF, "    return float(percent_str.strip()[:-1]) * 0.01", "    return float(percent_str.strip()[:-1])", 'D1'),
     # D2
@@ -2016,6 +2300,8 @@ MUTANTS = [
            "        from mitxgraders.comparers import Comparer\n        failable_evals = 0 if isinstance(comparer, Comparer) else self.config['failable_evals']\n        consolidated = self.consolidate_results(results, answer, failable_evals)", 'D4'),
     Mutant('seeded-percentage-fixed-point', VF, "                return \"{percent}%\".format(percent=percent)", "                return \"{percent:f}%\".format(percent=percent)", 'D5'),
     Mutant('percentage-rounded', VF, "                return \"{percent}%\".format(percent=percent)", "                return \"%.3g%%\" % percent", 'D5'),
+    Mutant('seeded-agreed-record-keeps-ok-true', MH, "        if answer is None:\n            answer = {'ok': True, 'grade_decimal': 1, 'msg': ''}\n        \n        # answer can contain extra keys, so prune them\n        pruned_answer = {key: answer[key] for key in ['ok', 'grade_decimal', 'msg']}\n",
+           "        pruned_answer = dict(ok=True, grade_decimal=1, msg='')\n        if answer is not None:\n            pruned_answer.update(grade_decimal=answer['grade_decimal'], msg=answer['msg'])\n", 'D3'),
     Mutant('credit-added', FG, "            result['grade_decimal'] *= answer['grade_decimal']\n", "            result['grade_decimal'] += answer['grade_decimal']\n", 'D4'),
     Mutant('failable-evals-ignored', FG, "        consolidated = self.consolidate_results(results, answer, self.config['failable_evals'])",
            "        consolidated = self.consolidate_results(results, answer, 0)", 'D4'),
@@ -2081,6 +2367,12 @@ BENIGN = [
            "        bounds = [Range(1, float('inf'))]\n    else:\n        bounds = [Range(0, float('inf')), NotIn([0])]\n    return All(thetype, *bounds)\n"),
     Benign('utils-fields-helper', MH, "        def _within_tolerance(x, y):\n            return within_tolerance(x, y, self.config['tolerance'])\n        \n        return self.Utils(tolerance=self.config['tolerance'],\n                          within_tolerance=_within_tolerance)\n",
            "        return self.Utils(**self._comparer_utils_fields())\n\n    def _comparer_utils_fields(self):\n        def _within_tolerance(x, y):\n            return within_tolerance(x, y, self.config['tolerance'])\n        return {'tolerance': self.config['tolerance'], 'within_tolerance': _within_tolerance}\n"),
+    Benign('infinity-membership-complete', MF, "    if isinstance(x, Number):\n        if x == inf or y == inf or x == -inf or y == -inf:\n            return x == y\n",
+           "    if isinstance(x, Number) and inf in (x, y, -x, -y):\n        return x == y\n"),
+    Benign('delegates-to-is-nearly-zero', MF, "    if isinstance(tolerance, str):\n        tolerance = np.linalg.norm(x) * percentage_as_number(tolerance)\n\n    difference = x - y\n\n    return np.linalg.norm(difference) <= tolerance\n\ndef is_nearly_zero",
+           "    return is_nearly_zero(x - y, tolerance, reference=x)\n\ndef is_nearly_zero"),
+    Benign('agreed-record-updated-from-answer', MH, "        if answer is None:\n            answer = {'ok': True, 'grade_decimal': 1, 'msg': ''}\n        \n        # answer can contain extra keys, so prune them\n        pruned_answer = {key: answer[key] for key in ['ok', 'grade_decimal', 'msg']}\n",
+           "        pruned_answer = dict(ok=True, grade_decimal=1, msg='')\n        if answer is not None:\n            pruned_answer.update(ok=answer['ok'], grade_decimal=answer['grade_decimal'], msg=answer['msg'])\n"),
     Benign('tolerance-any-order', MH, "        Required('tolerance', default='0.01%'): Any(PercentageString, NonNegative(Number)),",
            "        Required('tolerance', default='0.01%'): Any(NonNegative(Number), PercentageString),"),
 ]
